@@ -24,6 +24,7 @@
 From Coq Require Import ZArith QArith List Bool.
 From Coq Require String.
 Import ListNotations String.StringSyntax.
+Delimit Scope string_scope with str.
 From PV Require Import Generated.Reject Generated.SkyMask Generated.MaskInterp.
 From PV Require Import C17.Model C17.ProofsDilate C17.ProofsReject C17.ProofsInterp C17.ProofsAxis C17.ProofsMedian C17.ProofsSky.
 Open Scope Q_scope.
@@ -331,7 +332,7 @@ Print Assumptions C17_skymask_badmask_is_dilation.
 
 (* the flags tested are the two the property names *)
 Theorem C17_skymask_flag_names :
-  sky_flag_names = [("SPPIXMASK", "BADSKYCHI"); ("SPPIXMASK", "REDMONSTER")]%string.
+  sky_flag_names = [("SPPIXMASK", "BADSKYCHI"); ("SPPIXMASK", "REDMONSTER")]%str.
 Proof. exact eq_refl. Qed.
 Print Assumptions C17_skymask_flag_names.
 
